@@ -22,6 +22,14 @@ theorem history_nofault {cmp : Nat → Nat → Int} (tp : TotalPreorder cmp) (gr
     (PQueue.run cmp grow q ops m).2.2.fault = m.fault ∧ (PQueue.run cmp grow q ops m).2.2.liveT q.triple = m.liveT q.triple :=
   ⟨(C10.history_refines tp grow ops q m h hl).2.2.2.2, (C10.history_refines tp grow ops q m h hl).2.2.2.1⟩
 
+/-- the same **for every comparator** — no contract on `cmp` at all, only the shape of the queue:
+index safety of sift-up, `heapify`, push and pop does not depend on what the user's comparator
+answers -/
+theorem nofault_any_comparator (cmp : Nat → Nat → Int) (grow : Nat → Nat) (ops : List Op) (q : PQueue) (m : Mem)
+    (h : PQueue.Shape q) (hl : 2 ≤ m.liveT q.triple) :
+    (PQueue.run cmp grow q ops m).2.2.fault = m.fault ∧ (PQueue.run cmp grow q ops m).2.2.liveT q.triple = m.liveT q.triple :=
+  (C10.history_safe cmp grow ops q m h hl).2
+
 /-- the queue owns two blocks (struct, buffer) from construction on; `new … any history … destroy`
 returns the ledger of its triple to where it started and nothing faults, for every refusal schedule,
 every capacity the constructor accepts and both triples -/
